@@ -29,8 +29,8 @@ import subprocess
 from common import BIN, hex_str, impl_error
 
 PROP = "C11"
-MODULES = ["C11", "C11a", "C11b", "C11c", "C11d"]
-GEN = ["Rs"]
+MODULES = ["C11", "C11a", "C11b", "C11c", "C11d", "C11t"]
+GEN = ["Rs", "TranslRs"]
 MATCHERS = {}
 
 # ------------------------------------------------------------------------------------------------
@@ -1452,6 +1452,85 @@ def rand_error(rng, weight=None, positions=None):
     return bytes(e)
 
 
+def run_transl(ctx):
+    """Differential validation of the source translator (tools/py2lean.py) and its semantic prelude (Model/Py.lean), which are
+    in the trusted base of Props/C11t: the definitions TRANSLATED from the source of log_multiply / xor_bytes / generate /
+    check (`Gen/TranslRs.lean`, driver operations `t.rs.*`) against the real functions, on structured, random, boundary and
+    malformed arguments of the annotated types (negative and out-of-range ints, every length of message / mask / word, the
+    default mask).  A difference is a translator or prelude bug, never a finding about /repo."""
+    if ctx.search_only or not ctx.driver_ok:
+        return
+    R = rs()
+    rng = ctx.rng
+
+    def canon(v):
+        if isinstance(v, BaseException):
+            return impl_error(v)
+        if isinstance(v, bool):
+            return "1" if v else "0"
+        if isinstance(v, int):
+            return str(v)
+        return hex_str(bytes(v))
+
+    def call_(fn, *a):
+        try:
+            return canon(fn(*a))
+        except Exception as e:  # noqa: the real code's exception is the observable
+            return canon(e)
+
+    def rb(n):
+        return bytes(rng.randrange(256) for _ in range(n))
+
+    pairs = []
+    edge = [-1000, -513, -512, -511, -257, -256, -255, -2, -1, 0, 1, 2, 127, 128, 254, 255, 256, 257, 511, 512, 1000]
+    muls = [(a, b) for a in edge for b in edge]
+    muls += [(rng.randrange(256), rng.randrange(256)) for _ in range(ctx.budget(300, 3000))]
+    muls += [(rng.randrange(-600, 600), rng.randrange(-600, 600)) for _ in range(ctx.budget(150, 1500))]
+    for a, b in muls:
+        pairs.append((f"t.rs.mul {a} {b}", call_(R.log_multiply, a, b)))
+    ctx.count("transl:log_multiply", len(muls))
+    n = 0
+    for la in list(range(0, 14)) + [40]:
+        for lb in (0, 1, 2, 3, 4, la, la + 1):
+            for _ in range(2):
+                a, b = rb(la), rb(lb)
+                pairs.append((f"t.rs.xor {hex_str(a)} {hex_str(b)}", call_(R.xor_bytes, a, b)))
+                n += 1
+    ctx.count("transl:xor_bytes", n)
+    std = [m for _, m in std_masks()]
+    msgs = [bytes(9), b"\xff" * 9, bytes(range(1, 10)), bytes.fromhex("c3259a101234567810")]
+    msgs += [bytes([0] * i + [rng.randrange(1, 256)] + [0] * (8 - i)) for i in range(9)]
+    msgs += [rb(9) for _ in range(ctx.budget(150, 1500))]
+    msgs += [rb(k) for k in (0, 1, 2, 8, 10, 11, 12, 13, 24) for _ in range(3)]
+    masks = std + [bytes(3), b"\xff\xff\xff"]
+    n = m = 0
+    words = []
+    for d in msgs:
+        for mk in ([rng.choice(masks), rb(3)] + ([rb(k) for k in (0, 1, 2, 4, 9)] if rng.random() < 0.15 else [])):
+            out = call_(R.generate, d, mk)
+            pairs.append((f"t.rs.gen {hex_str(d)} {hex_str(mk)}", out))
+            n += 1
+            if not out.startswith("ERR") and len(mk) == 3:
+                words.append((bytes.fromhex(out), mk))
+        pairs.append((f"t.rs.gen1 {hex_str(d)}", call_(R.generate, d)))
+        n += 1
+    ctx.count("transl:generate", n)
+    for w, mk in words[: ctx.budget(200, 2000)]:
+        e = bytearray(w)
+        for _ in range(rng.randrange(1, 4)):
+            e[rng.randrange(12)] ^= rng.randrange(1, 256)
+        for cand, cm in ((w, mk), (bytes(e), mk), (w, rng.choice(masks)), (w[: rng.randrange(0, 12)], mk), (w + rb(rng.randrange(1, 4)), mk),
+                         (w, rb(rng.choice((0, 1, 2, 4))))):
+            pairs.append((f"t.rs.check {hex_str(cand)} {hex_str(cm)}", call_(R.check, cand, cm)))
+            m += 1
+    for _ in range(ctx.budget(100, 1000)):
+        cand, cm = rb(12), rng.choice(masks)
+        pairs.append((f"t.rs.check {hex_str(cand)} {hex_str(cm)}", call_(R.check, cand, cm)))
+        m += 1
+    ctx.count("transl:check", m)
+    ctx.correspond("transl", pairs)
+
+
 def run(ctx):
     R = rs()
     rng = ctx.rng
@@ -1513,6 +1592,13 @@ def run(ctx):
         "Masks given as list / tuple / memoryview are checked for their answers where the code accepts them; an exception for such a type gives no verdict",
         "the mask has 3 octets (the two masks the standard defines, the default, or any other 3 octets)",
     ]
+
+    ctx.trusted_base += [
+        "tools/py2lean.py + tools/extract_transl.py (source translator: Gen/TranslRs.lean from inspect.getsource of the live functions) and "
+        "lean/DmrVerif/Model/Py.lean (semantics of the Python subset); validated on every run by the differential operations t.rs.* (run_transl); "
+        "Props/C11t proves the translated definitions equal to Model/Rs.lean for all arguments",
+    ]
+    run_transl(ctx)
 
     # ------------------------------------------------------------------ multiplication
     pairs = []
